@@ -46,7 +46,7 @@ func htmlGen(w *core.Worker, u core.Unit, emit func(core.Case)) {
 	}
 	switch u.Gen {
 	case "g04":
-		genC04(w, u, func(s, meta string) { emit(core.Case{In: s}) })
+		genC04x(w, u, true, func(s, meta string) { emit(core.Case{In: s}) })
 	}
 }
 
@@ -79,12 +79,12 @@ func c15() *core.Check {
 	quick := []Mix{
 		{Gen: "atoms", Dict: "htmlbytes0", K: 5},
 		{Gen: "atoms", Dict: "htmlfull0", K: 3},
-		{Gen: "f-corpus"}, {Gen: "f-seq", N: 300000}, {Gen: "f-mut", N: 300000}, {Gen: "f-g04", N: 300000}, {Gen: "f-bytetpl"},
+		{Gen: "f-corpus"}, {Gen: "f-seq", N: 300000}, {Gen: "f-mut", N: 300000}, {Gen: "f-g04", N: 300000}, {Gen: "f-bytetpl"}, {Gen: "f-utf8tpl"}, {Gen: "f-scale", N: 128 << 10}, {Gen: "f-padded"},
 	}
 	thorough := []Mix{
 		{Gen: "atoms", Dict: "htmlbytes0", K: 6},
 		{Gen: "atoms", Dict: "htmlfull0", K: 4},
-		{Gen: "f-corpus"}, {Gen: "f-seq", N: 5000000}, {Gen: "f-mut", N: 5000000}, {Gen: "f-g04", N: 5000000}, {Gen: "f-bytetpl"},
+		{Gen: "f-corpus"}, {Gen: "f-seq", N: 5000000}, {Gen: "f-mut", N: 5000000}, {Gen: "f-g04", N: 5000000}, {Gen: "f-bytetpl"}, {Gen: "f-utf8tpl"}, {Gen: "f-scale", N: 1 << 20}, {Gen: "f-scale", N: 100000}, {Gen: "f-padded", N: 1},
 	}
 	plan := func(tier string, seed uint64) []core.Unit {
 		mixes := quick
@@ -98,6 +98,18 @@ func c15() *core.Check {
 				us = append(us, gen.RangeUnits("f-corpus", uint64(len(gen.CorpusHTML())), 16, "")...)
 			case "f-bytetpl":
 				us = append(us, gen.RangeUnits("f-bytetpl", 256, 16, "")...)
+			case "f-utf8tpl":
+				us = append(us, gen.RangeUnits("f-utf8tpl", uint64(len(utf8Chars())), 96, "")...)
+			case "f-scale":
+				for _, u := range planMix(htmlDomain, []Mix{{Gen: "scale", N: m.N}}) {
+					u.Gen = "f-scale"
+					us = append(us, u)
+				}
+			case "f-padded":
+				for _, u := range planMix(htmlDomain, []Mix{{Gen: "padded", N: m.N}}) {
+					u.Gen = "f-padded"
+					us = append(us, u)
+				}
 			case "f-seq", "f-mut", "f-g04":
 				us = append(us, gen.RangeUnits(m.Gen, m.N, 20000, "htmlfull")...)
 			default:
@@ -108,7 +120,7 @@ func c15() *core.Check {
 	}
 	return &core.Check{
 		ID: "C15",
-		Rule: "strings over bytes minus {'<','='}: bounded-exhaustive sequences over the HTML alphabet minus atoms containing the two bytes; corpus truncations, random sequences, mutations and XSS-grammar vectors with every '<'/'=' deleted or replaced. Oracle: IsXSS = false (the firing context is reported). " +
+		Rule: "strings over bytes minus {'<','='}: bounded-exhaustive sequences over the HTML alphabet minus atoms containing the two bytes; corpus truncations, random sequences, mutations, XSS-grammar vectors, byte / UTF-8 character templates, the length-parameterised families at 128 KiB (thorough 1 MiB) and corpus inputs padded to 255-65537 bytes, with every '<'/'=' deleted or replaced. Oracle: IsXSS = false (the firing context is reported). " +
 			"Non-trivial = the tokenizer produced a non-text token in some context (attribute machinery exercised); distinct by input.",
 		Plan: plan,
 		Gen: func(w *core.Worker, u core.Unit, emit func(core.Case)) {
@@ -132,6 +144,15 @@ func c15() *core.Check {
 				genMix(htmlDomain, w, u2, f)
 			case "f-g04":
 				genC04(w, u, func(s, meta string) { f(core.Case{In: s}) })
+			case "f-scale", "f-padded":
+				// long inputs: a token budget or a length-dependent path
+				u2 := u
+				u2.Gen = u.Gen[2:]
+				genMix(htmlDomain, w, u2, f)
+			case "f-utf8tpl":
+				u2 := u
+				u2.Gen = "utf8tpl"
+				genMix(htmlDomain, w, u2, f)
 			case "f-bytetpl":
 				u2 := u
 				u2.Gen = "bytetpl"
